@@ -40,7 +40,7 @@ def build_schemas(raw_schemas: dict[str, Mapping[str, Any]], raw_components: Map
         # Parse unless this very name is registered already (reached earlier through a $ref). A schema registered
         # under the same *sanitised* name is a different declared schema ("Foo" / "foo"): both are kept, the
         # models emitter gives them distinct class and module names.
-        if n not in context.parsed_schemas:
+        if n not in context.parsed_schemas and n not in context.registered_keys_by_raw_name:
             _parse_schema(n, nd, context, allow_self_reference=True)
 
     # Post-condition check: each raw schema must be registered under either its original or sanitized name
